@@ -154,6 +154,7 @@ func c07Programs(tier string) []*schedmc.Program {
 							dm, _ := mem.Emb.NewDMap("d")
 							r := simcluster.WrapDMap("", dm).Get("ctr")
 							got := string(r.Val)
+							h.Note = "final=" + got
 							match := false
 							for _, f := range finals {
 								if kind == "float" {
